@@ -14,7 +14,8 @@ PROP = "C15"
 LEVEL = "exploration"
 RULE = ("Hypothesis cases: direct calls dykstra(P, x0, max_iter, tol) with n in 1..6, 1-4 sets from {ball, half-space, box, "
         "scaled simplex} built around a common point with a drawn margin, the last set a box in about half the cases, start "
-        "points inside / near / far, tol in {1e-12, 1e-10 (default), 1e-8, 1e-6}, max_iter in {20, 100, 1000}. The routine is "
+        "points inside / a hair (1e-7..1e-4 relative) outside / near / far; projectors return fresh arrays or, in a third of the cases, "
+        "hand a feasible argument back as the same object; tol in {1e-12, 1e-10 (default), 1e-8, 1e-6}, max_iter in {20, 100, 1000}. The routine is "
         "called with counting projector proxies (sweeps and the stopping quantity of every sweep reconstructed from them; the "
         "routine may stop early only when that quantity is below tol, and must stop at the first sweep where it is). Reference "
         "projection from the harness's own implementation of Dykstra's method run until the iterates stop moving. "
@@ -51,14 +52,28 @@ def cases(draw):
             sets[-1] = box
         else:
             sets.append(box)
-    start = draw(st.sampled_from(["inside", "near", "far", "far", "veryfar"]))
+    start = draw(st.sampled_from(["inside", "near", "far", "far", "veryfar", "hair", "hair"]))
     dirn = np.array([draw(sc.g8) for _ in range(n)])
     if not np.any(dirn):
         dirn[0] = 1.0
     dirn = dirn / np.linalg.norm(dirn)
-    step = {"inside": 0.0, "near": 0.5 * mag, "far": 5.0 * mag, "veryfar": 100.0 * mag}[start]
-    x0 = (np.array(z) + step * dirn).tolist()
-    return {"n": n, "sets": sets, "x0": x0, "start": start, "tol": draw(st.sampled_from([1e-12, 1e-10, 1e-10, 1e-8, 1e-6])),
+    if start == "hair":
+        # a hair outside the intersection: walk from z along dirn to its boundary (bisection on the harness's distances),
+        # then step out by 1e-7 .. 1e-4 relative
+        lo_t, hi_t = 0.0, 1000.0 * mag
+        zz = np.array(z)
+        for _ in range(90):
+            mid = 0.5 * (lo_t + hi_t)
+            if max(sc.set_distance(sp, zz + mid * dirn) for sp in sets) > 0:
+                hi_t = mid
+            else:
+                lo_t = mid
+        xb = zz + lo_t * dirn
+        x0 = (xb + dirn * draw(st.sampled_from([1e-7, 1e-6, 1e-5, 1e-4])) * max(1.0, float(np.max(np.abs(xb))))).tolist()
+    else:
+        step = {"inside": 0.0, "near": 0.5 * mag, "far": 5.0 * mag, "veryfar": 100.0 * mag}[start]
+        x0 = (np.array(z) + step * dirn).tolist()
+    return {"n": n, "sets": sets, "x0": x0, "start": start, "alias": draw(st.sampled_from([False, False, True])), "tol": draw(st.sampled_from([1e-12, 1e-10, 1e-10, 1e-8, 1e-6])),
             "max_iter": draw(st.sampled_from([20, 100, 100, 1000]))}
 
 
@@ -97,7 +112,8 @@ def run(case):
     res = CaseResult()
     n = case["n"]
     specs = case["sets"]
-    P = [sc.set_projector(sp) for sp in specs]
+    P = [sc.set_projector(sp, alias=bool(case.get("alias"))) for sp in specs]
+    Pref = [sc.set_projector(sp) for sp in specs]
     x0 = np.array(case["x0"], dtype=float)
     tol, max_iter = float(case["tol"]), int(case["max_iter"])
     p = len(P)
@@ -133,7 +149,7 @@ def run(case):
     if early:
         res.fail("C15.stopping_rule", "the stopping quantity was already below tol=%r after sweep %d (%r) but %d sweeps were performed"
                  % (tol, early[0] + 1, st_["sweeps"][early[0]], st_["cnt"]))
-    res.classes += ["start:" + case["start"], "stopped:" + ("rule" if by_rule else "cap")]
+    res.classes += ["start:" + case["start"], "stopped:" + ("rule" if by_rule else "cap")] + (["aliasing-projectors"] if case.get("alias") else [])
     if not np.array_equal(x0_in, x0):
         res.fail("C15.returns", "the caller's start point was modified")
     if st_["calls"][0] > max_iter or any(c > max_iter for c in st_["calls"]):
@@ -152,7 +168,7 @@ def run(case):
         res.margin("C15.feasible", max(dists) / bound)
         if max(dists) > bound:
             res.fail("C15.feasible", "stopped by the rule but %r away from set %d; bound sqrt(p*tol)=%r" % (max(dists), int(np.argmax(dists)), bound))
-        xref, conv, moves = reference_projection(P, x0)
+        xref, conv, moves = reference_projection(Pref, x0)
         q = contraction(moves)
         implied = conv and q < 1 and math.sqrt(tol) * q / (1 - q) <= 1e-4
         if implied:
